@@ -329,6 +329,10 @@ def vt_ops(types):
         ops.append(['setlist', l, 3])
     ops.append(['setUnset', 9])
     ops.append(['setUnset', 0.0])
+    for kind in ('list', 'tuple'):                        # a list / tuple VALUE whose length happens to equal the number of keys is one value for every key
+        ops.append(['setlistval', list(types), kind])
+        if len(types) > 2:
+            ops.append(['setlistval', list(types[1:]), kind])
     ops.append(['setarr', types[0]])                      # an array is a legal value (its truth value / == None are not scalars)
     ops.append(['setarr', types[-1]])
     if isinstance(types[-1], str):
@@ -340,7 +344,15 @@ ARR = 'ARR'                     # model marker for the array value below
 ARRVAL = [1.5, 2.5, 0.0]
 
 
+def listval(kind, n):
+    v = [None if i == 0 else 10 + i for i in range(n)]          # the first element is None: per-key distribution would leave that key "unset"
+    return v if kind == 'list' else tuple(v)
+
+
 def veq(got, want):
+    if isinstance(want, tuple) and len(want) == 3 and want[0] == 'LISTVAL':
+        w = listval(want[1], want[2])
+        return type(got) is type(w) and got == w
     if isinstance(want, str) and want == ARR:
         return isinstance(got, np.ndarray) and got.shape == (3,) and bool(np.all(got == np.array(ARRVAL)))
     if isinstance(got, np.ndarray):
@@ -369,6 +381,10 @@ def vt_step(T, model, types, op):
     elif op[0] == 'set_npstr':
         T[np.str_(op[1])] = op[2]
         model[types.index(op[1])] = op[2]
+    elif op[0] == 'setlistval':
+        T[op[1]] = listval(op[2], len(op[1]))
+        for t in op[1]:
+            model[types.index(t)] = ('LISTVAL', op[2], len(op[1]))
     elif op[0] == 'setarr':
         T[op[1]] = np.array(ARRVAL)
         model[types.index(op[1])] = ARR
@@ -411,7 +427,158 @@ def vt_build(types, hist):
 
 # --------------------------------------------------------------------------
 
+# --------------------------------------------------------------------------
+# real library objects as PairTable values (what System.potential / closure / omega hold)
+
+def lib_value(kind):
+    P = pp()
+    if kind == 'FromArray':
+        return P.omega.FromArray(np.array([1.0, 2.0, 3.0, 4.0]))
+    if kind == 'FromArray+k':
+        return P.omega.FromArray(np.array([1.0, 2.0, 3.0, 4.0]), np.array([0.1, 0.2, 0.3, 0.4]))
+    if kind == 'Gaussian':
+        return P.omega.Gaussian(sigma=1.0, length=10)
+    if kind == 'PY':
+        c = P.closure.PercusYevick(apply_hard_core=True)
+        c.potential = np.array([5.0, 0.5, 0.0])
+        c.sigma = 1.0
+        return c
+    if kind == 'HNC':
+        c = P.closure.HyperNettedChain()
+        c.potential = np.array([5.0, 0.5, 0.0])
+        return c
+    if kind == 'LJ':
+        return P.potential.LennardJones(epsilon=1.0, sigma=1.0, rcut=2.5, shift=True)
+    if kind == 'EXP':
+        return P.potential.Exponential(epsilon=1.0, alpha=0.5, sigma=1.0)
+    if kind == 'ndarray':
+        return np.array([1.0, 2.0, 3.0])
+    if kind == 'dict':
+        return {'a': [1, 2], 'b': np.array([1.0])}
+    raise KeyError(kind)
+
+
+LIBKINDS = ['FromArray', 'FromArray+k', 'Gaussian', 'PY', 'HNC', 'LJ', 'EXP', 'ndarray', 'dict']
+
+
+def deep_state(o, depth=0):
+    """Canonical picture of everything reachable through attributes / items (arrays by content)."""
+    if isinstance(o, np.ndarray):
+        return ('nd', o.shape, o.tobytes())
+    if isinstance(o, (list, tuple)):
+        return (type(o).__name__, tuple(deep_state(x, depth + 1) for x in o))
+    if isinstance(o, dict):
+        return ('dict', tuple(sorted((repr(k), deep_state(v, depth + 1)) for k, v in o.items())))
+    if callable(o) and not hasattr(o, '__dict__'):
+        return ('callable',)
+    if hasattr(o, '__dict__') and depth < 4 and not isinstance(o, type) and not callable(o):
+        return (type(o).__name__, tuple(sorted((k, deep_state(v, depth + 1)) for k, v in vars(o).items())))
+    if callable(o):
+        return ('callable',)
+    return ('atom', repr(o))
+
+
+def deep_mutate(o):
+    """Change, IN PLACE, every mutable thing one level below the object (and the object itself if it is a container);
+    returns the number of things changed.  Attribute re-binding is used only for plain numbers."""
+    n = 0
+    if isinstance(o, np.ndarray):
+        o *= -0.5
+        return 1
+    if isinstance(o, dict):
+        for v in o.values():
+            n += deep_mutate(v)
+        o['new'] = 1
+        return n + 1
+    if isinstance(o, list):
+        o.append('m')
+        return 1
+    if hasattr(o, '__dict__'):
+        for k, v in list(vars(o).items()):
+            if isinstance(v, (np.ndarray, list, dict)):
+                n += deep_mutate(v)
+            elif isinstance(v, (int, float)) and not isinstance(v, bool):
+                setattr(o, k, v * 1.5 + 1)
+                n += 1
+    return n
+
+
+def case_libvalues(rec, c):
+    """One library object assigned to several pairs by the given form; then (i) the caller changes its own object in
+    place, (ii) one stored value is changed in place: no other pair, and not the caller's object, may follow."""
+    P = pp()
+    types, kind, form, victim = list(c['types']), c['value'], c['form'], c['victim']
+    T = P.PairTable(list(types), 'v')
+    obj = lib_value(kind)
+    rec.state()
+    pairs = [(a, b) for i, a in enumerate(types) for b in types[i:]]
+    try:
+        if form == 'bulk':
+            T[list(types), list(types)] = obj
+        elif form == 'setUnset':
+            T.setUnset(obj)
+        elif form == 'single':                      # the same object assigned pair by pair
+            for a, b in pairs:
+                T[a, b] = obj
+        elif form == 'single-rev':
+            for a, b in reversed(pairs):
+                T[b, a] = obj
+        elif form == 'rows':
+            for a in types:
+                T[a, list(types)] = obj
+        elif form == 'mixed':                       # first pair singly, the rest by setUnset
+            T[types[0], types[-1]] = obj
+            T.setUnset(obj)
+        else:
+            raise HarnessError(form)
+        rec.trans()
+        pristine = deep_state(lib_value(kind))
+        # (i) the caller's object changes afterwards
+        if deep_mutate(obj) == 0:
+            raise HarnessError('nothing mutable in %s' % kind)
+        for a, b in pairs:
+            if deep_state(T[a, b]) != pristine:
+                rec.fail(c, 'PairTable value (%s) stored at (%s,%s) by %s assignment changed when the caller modified its own object afterwards' % (kind, a, b, form),
+                         {'table': 'PairTable', 'kind': 'isolation', 'value': kind})
+                return
+        callers = deep_state(obj)
+        # (ii) one stored value changes in place
+        va, vb = pairs[victim % len(pairs)]
+        deep_mutate(T[va, vb])
+        rec.trans()
+        changed = deep_state(T[va, vb])
+        if deep_state(T[vb, va]) != changed:
+            rec.fail(c, 'PairTable (%s): (%s,%s) and (%s,%s) are different objects' % (kind, va, vb, vb, va), {'table': 'PairTable', 'kind': 'symmetry', 'value': kind})
+            return
+        for a, b in pairs:
+            if (a, b) == (va, vb):
+                continue
+            if deep_state(T[a, b]) != pristine:
+                rec.fail(c, 'PairTable value (%s): after %s assignment of ONE object to several pairs, changing the value stored at (%s,%s) in place (arrays / containers one level below '
+                         'the object) also changed the value stored at (%s,%s) - the copies are not independent' % (kind, form, va, vb, a, b),
+                         {'table': 'PairTable', 'kind': 'isolation', 'value': kind})
+                return
+        if deep_state(obj) != callers:
+            rec.fail(c, 'PairTable value (%s): changing the stored value at (%s,%s) changed the caller\'s object' % (kind, va, vb), {'table': 'PairTable', 'kind': 'isolation', 'value': kind})
+            return
+    except HarnessError:
+        raise
+    except Exception as e:
+        rec.fail(c, 'PairTable with %s values (%s assignment) raised %s: %s' % (kind, form, type(e).__name__, str(e)[:80]), {'table': 'PairTable', 'kind': 'raises', 'value': kind})
+        return
+    rec.trace()
+    rec.outcome(core.digest([types, kind, form, victim]))
+
+
+LIBFORMS = ['bulk', 'setUnset', 'single', 'single-rev', 'rows', 'mixed']
+
+
 def replay(rec, case):
+    if case.get('kind') == 'libvalues':
+        with warnings.catch_warnings():
+            warnings.simplefilter('ignore')
+            case_libvalues(rec, case)
+        return
     with warnings.catch_warnings():
         warnings.simplefilter('ignore')
         table, types, ops = case['table'], list(case['types']), case['ops']
@@ -471,6 +638,13 @@ def run(rec, tier, seed):
             for op in vt_ops(types):
                 items.append(('ValueTable', types, [op], dep + 1))
     core.pmap(_worker, items, rec, chunksize=2)
+    with warnings.catch_warnings():
+        warnings.simplefilter('ignore')
+        for labels in (['A', 'B'], ['A', 'B', 'C'], [1, 0, 3]):
+            npairs = len(labels) * (len(labels) + 1) // 2
+            for kind, form, victim in itertools.product(LIBKINDS, LIBFORMS, range(npairs)):
+                case_libvalues(rec, {'kind': 'libvalues', 'types': labels, 'value': kind, 'form': form, 'victim': victim})
+    rec.note('library_values', {'kinds': LIBKINDS, 'assignment_forms': LIBFORMS, 'victims': 'every pair', 'type_lists': [['A', 'B'], ['A', 'B', 'C'], [1, 0, 3]]})
     rec.note('bounds', {'depth_by_number_of_types': depths, 'ValueTable_depth': 'PairTable depth + 1', 'label_sets': LABELSETS,
                         'depth_for_ints_and_names': 'letters depth - 2'})
     rec.note('alphabets', {'PairTable_ops_by_n': {n: len(pt_ops(ALLTYPES[:n])) for n in (1, 2, 3, 4)},
